@@ -173,3 +173,58 @@ func CharClass(s string) string {
 	}
 	return "plain"
 }
+
+// Lookalikes are strings whose TEXT looks like the escape sequences an escaper
+// produces (backslash + u003D, backslash + n, ...) standing next to the real
+// characters those sequences stand for: an escaper that post-processes its own
+// output confuses the two. full = the whole cross product.
+func Lookalikes(full bool) []string {
+	type pair struct{ real, text string }
+	const bs = "\\"
+	u := func(hex string) string { return bs + "u" + hex } // the TEXT backslash, u, four hex digits
+	pairs := []pair{
+		{"=", u("003D")}, {"&", u("0026")}, {"<", u("003C")}, {">", u("003E")}, {"'", bs + "'"}, {`"`, bs + `"`}, {bs, bs + bs},
+		{"\n", bs + "n"}, {"\r", bs + "r"}, {"\t", bs + "t"}, {string(rune(0x2028)), u("2028")}, {"\x01", u("0001")},
+		{"'", u("0027")}, {`"`, u("0022")}, {"=", u("003d")}, {"<", bs + "x3c"}, {"<", bs + "x3C"}, {"&", "&amp;"},
+		{string(rune(0xE0001)), u("DB40") + u("DC01")}, {"\x00", bs + "0"}, {"\x7f", u("007F")},
+	}
+	seen := map[string]bool{}
+	var l []string
+	add := func(s string) {
+		if !seen[s] {
+			seen[s] = true
+			l = append(l, s)
+		}
+	}
+	for _, p := range pairs {
+		add(p.text)
+		add(p.text + p.real)
+		add(p.real + p.text)
+		if full {
+			add(p.text + p.text + p.real + p.real)
+		}
+	}
+	hot := []string{"=", "&", `\`}
+	if full {
+		hot = append(hot, "<", "'", `"`, "\n")
+	}
+	for _, p := range pairs {
+		for _, q := range pairs {
+			if full {
+				add(p.text + q.real)
+				add(q.real + p.text)
+			}
+		}
+		for _, h := range hot {
+			add(p.text + h)
+			add(h + p.text)
+		}
+	}
+	// truncated and braced forms
+	for _, s := range []string{bs + "u", u("0"), u("00"), u("003"), bs + "x", bs + "x3", bs + "u{1F600}", bs + "u{3D}", bs + "U0000003D", bs + "075", bs + "=", bs + "&", "&#61;", "%3D"} {
+		add(s)
+		add(s + "=")
+		add("&" + s)
+	}
+	return l
+}
